@@ -55,7 +55,7 @@ def cases(tier):
                     for setup in SETUPS:
                         sp_ = [t] * d
                         if setup == "periodic":
-                            pax = next((ax for ax in range(d) if U.periodic_ok(U.AXES[cls][ax])), None)
+                            pax = U.periodic_axis(cls, shape, org)
                             if pax is None:
                                 continue
                             sp_[pax] = "U"
@@ -91,7 +91,7 @@ def make_bc(g, setup, cvals=None):
     """Dirichlet sides get the data cvals (flat list over Dirichlet faces) - default generic."""
     bc = pf.BoundaryConditions(g.mesh)
     kinds = U.AXES[g.cls]
-    pax = next((ax for ax in range(g.d) if U.periodic_ok(kinds[ax])), None) if setup == "periodic" else None
+    pax = U.periodic_axis(g.cls, g.dims, g.spec["org"]) if setup == "periodic" else None
     k = 0
     dir_sides = []
     for ax in range(g.d):
